@@ -43,7 +43,19 @@ def matchIdx (diff off : α) (s l : List α) : List (Nat × Nat) :=
     | some (v, j) => if Scalar.lt v diff then some (i, j) else none
     | none => none
 
-def pick {β : Type} (d : β) (xs : List β) (ids : List Nat) : List β := ids.map fun i => xs.getD i d
+/-- `xs[ids]` (indices produced by the matching are always in range; an out-of-range index would raise in the
+code and is dropped here) -/
+def pick {β : Type} (xs : List β) (ids : List Nat) : List β := ids.filterMap fun i => xs[i]?
+
+/-- index lists `(reference ids, estimate ids)` chosen by `associate_traj` — a function of the stamps only.
+The shorter trajectory is matched against the longer one; the offset always shifts the *estimate* stamps. -/
+def assocIdx (diff off : α) (rs es : List α) : List Nat × List Nat :=
+  if rs.length < es.length then
+    let m := matchIdx diff off rs es
+    (m.map Prod.fst, m.map Prod.snd)
+  else
+    let m := matchIdx diff (-off) es rs
+    (m.map Prod.snd, m.map Prod.fst)
 
 /-- the associated sub-trajectories `(r stamps, r poses, e stamps, e poses)` -/
 structure Assoc (α : Type) where
@@ -55,15 +67,9 @@ structure Assoc (α : Type) where
 /-- `associate_traj`; `none` models `assert num_matches != 0` -/
 def associate (diff off : α) (rs : List α) (rp : List (SE3 α)) (es : List α) (ep : List (SE3 α)) :
     Option (Assoc α) :=
-  let sndLonger := decide (rs.length < es.length)
-  -- short trajectory first; the offset always shifts the *estimate* stamps
-  let m := if sndLonger then matchIdx diff off rs es else matchIdx diff (-off) es rs
-  let iShort := m.map Prod.fst
-  let iLong := m.map Prod.snd
-  let ir := if sndLonger then iShort else iLong
-  let ie := if sndLonger then iLong else iShort
-  if m.isEmpty then none
-  else some ⟨pick (k 0) rs ir, pick SE3one rp ir, pick (k 0) es ie, pick SE3one ep ie⟩
+  let ix := assocIdx diff off rs es
+  if ix.1.isEmpty then none
+  else some ⟨pick rs ix.1, pick rp ix.1, pick es ix.2, pick ep ix.2⟩
 
 /-! ## alignment -/
 
@@ -249,36 +255,43 @@ def pairId (pm : PairMode) (deltaN : Nat) (delta rtol : α) (all : Bool) (poses 
 
 /-! ## `ape`, `rpe` -/
 
-/-- errors of `ape` (one per associated pose); `none` = the code raises (no match) -/
+/-- errors of `ape` on already associated trajectories (one per pose) -/
+def apeCore (eps atol : α) (alignFn : List (Vec3 α) → List (Vec3 α) → Sim3 α) (et : EType) (mode : AlignMode)
+    (rp ep : List (SE3 α)) : List α :=
+  let T := transOf alignFn mode rp ep
+  List.zipWith (apeErr eps atol et) rp (ep.map (alignPose T))
+
+/-- errors of `ape`; `none` = the code raises (no match) -/
 def apeErrors (eps atol : α) (alignFn : List (Vec3 α) → List (Vec3 α) → Sim3 α) (et : EType) (diff off : α)
     (mode : AlignMode) (rs : List α) (rp : List (SE3 α)) (es : List α) (ep : List (SE3 α)) : Option (List α) :=
-  match associate diff off rs rp es ep with
-  | none => none
-  | some a =>
-    let T := transOf alignFn mode a.rp a.ep
-    let ea := a.ep.map (alignPose T)
-    some (List.zipWith (apeErr eps atol et) a.rp ea)
+  (associate diff off rs rp es ep).map fun a => apeCore eps atol alignFn et mode a.rp a.ep
 
 def ape (eps atol : α) (alignFn : List (Vec3 α) → List (Vec3 α) → Sim3 α) (et : EType) (diff off : α)
     (mode : AlignMode) (rs : List α) (rp : List (SE3 α)) (es : List α) (ep : List (SE3 α)) : Option (Stats α) :=
   (apeErrors eps atol alignFn et diff off mode rs rp es ep).map stats
 
-/-- relative poses `X[s]⁻¹ X[t]` over the index pairs -/
+/-- relative poses `X[s]⁻¹ X[t]` over the index pairs (pairs produced by `pair_id` are always in range) -/
 def relPoses (ps : List (SE3 α)) (pairs : List (Nat × Nat)) : List (SE3 α) :=
-  pairs.map fun (s, t) => SE3Mul (SE3Inv (ps.getD s SE3one)) (ps.getD t SE3one)
+  pairs.filterMap fun st =>
+    match ps[st.1]?, ps[st.2]? with
+    | some a, some b => some (SE3Mul (SE3Inv a) b)
+    | _, _ => none
 
-/-- errors of `rpe`; `none` = the code raises (no match, or no pair: `StampedSE3` of an empty selection) -/
+/-- errors of `rpe` on already associated trajectories; `none` = no pair (the code raises: `StampedSE3` of an
+empty selection) -/
+def rpeCore (eps atol : α) (alignFn : List (Vec3 α) → List (Vec3 α) → Sim3 α) (et : EType) (mode : AlignMode)
+    (pm : PairMode) (deltaN : Nat) (delta rtol : α) (all rpair : Bool) (rp ep : List (SE3 α)) : Option (List α) :=
+  let T := transOf alignFn mode rp ep
+  let ea := ep.map (alignPose T)
+  let pairs := pairId pm deltaN delta rtol all (if rpair then rp else ea)
+  if pairs.isEmpty then none
+  else some (List.zipWith (rpeErr eps atol et) (relPoses rp pairs) (relPoses ea pairs))
+
 def rpeErrors (eps atol : α) (alignFn : List (Vec3 α) → List (Vec3 α) → Sim3 α) (et : EType) (diff off : α)
     (mode : AlignMode) (pm : PairMode) (deltaN : Nat) (delta rtol : α) (all rpair : Bool)
     (rs : List α) (rp : List (SE3 α)) (es : List α) (ep : List (SE3 α)) : Option (List α) :=
-  match associate diff off rs rp es ep with
-  | none => none
-  | some a =>
-    let T := transOf alignFn mode a.rp a.ep
-    let ea := a.ep.map (alignPose T)
-    let pairs := pairId pm deltaN delta rtol all (if rpair then a.rp else ea)
-    if pairs.isEmpty then none
-    else some (List.zipWith (rpeErr eps atol et) (relPoses a.rp pairs) (relPoses ea pairs))
+  (associate diff off rs rp es ep).bind fun a =>
+    rpeCore eps atol alignFn et mode pm deltaN delta rtol all rpair a.rp a.ep
 
 def rpe (eps atol : α) (alignFn : List (Vec3 α) → List (Vec3 α) → Sim3 α) (et : EType) (diff off : α)
     (mode : AlignMode) (pm : PairMode) (deltaN : Nat) (delta rtol : α) (all rpair : Bool)
